@@ -100,7 +100,14 @@ def one(req):
         # generator behind fake() is not theirs to configure
         from d42 import schema as _schema
         from d42.generation import Generator, RegexGenerator
-        batch = [_schema.str.regex(p) for p in (".{12}", "\\d{8}", "\\w{8}", "[^a]{6}", "[a-c]+x.")] + [_schema.str.len(6), _schema.int]
+        # (incl. constructs the generator refuses: what it raises for them - or returns - is the same every time)
+        batch = []
+        for p in ("(y){0}z(?(1)A|B)", ".{12}", "\\d{8}", "\\w{8}", "[^a]{6}", "[a-c]+x.", "(<)?\\w{1,3}@x(?(1)>|;)", "(a)?b(?(1)c|d)", "(ab|c)\\1", "a(?=b)b", "(?P<q>['\"])x(?P=q)"):
+            try:
+                batch.append(_schema.str.regex(p))
+            except Exception:  # noqa
+                pass
+        batch += [_schema.str.len(6), _schema.int]
 
         def run_batch():
             Random().set_seed(seed)
@@ -120,7 +127,14 @@ def one(req):
         except Exception:  # noqa
             pass
         post = run_batch()
+        if pre == post:
+            post = run_batch()          # a third time: state kept by the second pass shows in the third
         Random().set_seed(seed)
+        # objects of the public generator classes built AFTER seeding (they are handed a Random of their own): none of
+        # them may touch the seeded stream
+        Random()
+        Generator(Random(), RegexGenerator(Random()))
+        RegexGenerator(Random(), max_repeat=3)
         row = []
         generate(row)
         out.append(row if pre == post else ["building a RegexGenerator / Generator of one's own changed what fake() generates",
